@@ -214,6 +214,30 @@ def unit_heat(bc):
     return res
 
 
+EHEP_NATIVE = r"""
+import json, io, contextlib, warnings
+import numpy as np
+warnings.simplefilter('ignore')
+from exactpack.solvers.ehep.ehep import EscapeOfHEProducts as E
+lM, lL, lT = 3.0, 2.0, 5.0
+kw = dict(D=0.85, rho_0=1.6, up=0.05, xtilde=1.7, xmax=10., tmax=10.)
+kws = dict(D=kw['D'] * lL / lT, rho_0=kw['rho_0'] * lM / lL ** 3, up=kw['up'] * lL / lT, xtilde=kw['xtilde'] * lL, xmax=kw['xmax'] * lL, tmax=kw['tmax'] * lT)
+fac = {'density': lM / lL ** 3, 'pressure': lM / (lL * lT ** 2), 'specific_internal_energy': lL ** 2 / lT ** 2, 'sound_speed': lL / lT, 'velocity': lL / lT}
+with contextlib.redirect_stdout(io.StringIO()): a = E(**kw); b = E(**kws)
+bad = {}; n = 0
+xs = np.linspace(-3.0, 8.0, 45) + 0.0137
+for t0 in (0.7, 1.5, 2.4, 3.3, 4.9, 7.1):
+    with contextlib.redirect_stdout(io.StringIO()): ra = a(xs, t0); rb = b(xs * lL, t0 * lT)
+    for i in range(len(xs)):
+        if ra['region'][i] != rb['region'][i]: continue          # boundary points (absolute tolerances of the polygon test)
+        n += 1
+        for k, f in fac.items():
+            if abs(rb[k][i] - f * ra[k][i]) > 1e-9 * max(abs(rb[k][i]), abs(f * ra[k][i]), 1e-300):
+                bad.setdefault('%s in region %s' % (k, ra['region'][i]), [float(xs[i]), t0, float(ra[k][i]), float(rb[k][i]), f])
+print(json.dumps({'reproduced': bool(bad), 'points_compared': n, 'first mismatch per field/region (x, t, original, changed units, expected factor)': bad}))
+"""
+
+
 def unit_ehep():
     from props import ehep_kit as EK
     res = {'obligations': [], 'functions': EK.functions(), 'engine_errors': []}; O = res['obligations']
@@ -227,6 +251,7 @@ def unit_ehep():
         for n, dd in outd.items():
             v = F[n]
             o = core.prove_zero('C08/ehep/region_%s/%s' % (lab, n), v.subs(sub, simultaneous=True) - mono(dd) * v, [EK.up < EK.D / 4] + pc, goal_text='%s(scaled inputs) == %s * %s(inputs)' % (n, mono(dd), n), extra_syms={lM, lL, lT, lTh})
+            if o['status'] == 'refuted': o['replay'] = EHEP_NATIVE
             o.pop('cex_raw', None); O.append(o)
     return res
 
